@@ -558,7 +558,13 @@ func (self Node) Index(i int) (v Node) {
 	}
 
 	s, e = it.Next(UseNativeSkipForGet)
-	v = self.slice(s, e, self.et)
+	if it.Err != nil {
+		// the wanted element itself is cut
+		return errNode(meta.ErrRead, "", it.Err)
+	}
+	// NOTICE: the element is of the type the list header announces. A list node cut by a descriptor carries the declared
+	// element type, which need not be what the bytes hold
+	v = self.slice(s, e, it.et)
 ret:
 	// it.Recycle()
 	return
